@@ -7,7 +7,7 @@ import common
 from common import Broken, sh
 
 BUCKETS = ["balance", "fee", "stake", "unstaking", "withdrawable", "undelegating", "reward_claim", "reward_withdrawing",
-           "proposal_fund", "delegated", "validator_reward_matured", "validator_reward_withdrawn", "validator_reward_interval", "bid_escrow"]
+           "proposal_fund", "delegated", "validator_reward_matured", "validator_reward_withdrawn", "validator_reward_interval", "bid_escrow", "wrapped_supply_counter"]
 STEPKIND = {0: "BeginBlock", 1: "DeliverTx", 2: "EndBlock"}
 
 # monitor classes of LedgerCheck.step_viol
@@ -58,8 +58,10 @@ def describe_step(case, si):
             d[k] = s[k]
     d["changed_records"] = [{"owner": case["owners"][u["o"]], "bucket": BUCKETS[u["b"]], "currency": case["curs"][u["c"]],
                              "sub": u["s"], "new_amount": u["amt"]} for u in s["upd"]]
-    d["changed_reward_claim_records"] = [{"validator": case["owners"][u["o"]], "bucket": BUCKETS[u["b"]], "sub": u["s"], "new_amount": u["amt"]}
+    d["changed_side_records"] = [{"owner": case["owners"][u["o"]], "currency": case["curs"][u["c"]], "bucket": BUCKETS[u["b"]], "sub": u["s"], "new_amount": u["amt"]}
                                          for u in s.get("side") or []]
+    if s.get("allowc"):
+        d["wrapped_allowance"] = [{"currency": case["curs"][u["c"]], "amount": u["amt"]} for u in s["allowc"]]
     d["authority"] = [case["owners"][i] for i in s.get("auth") or []]
     return d
 
@@ -80,7 +82,7 @@ def payload(case, si, cl, a, b, names):
     for s in case["steps"][max(si, 1):]:
         if s["kind"] == 0:
             break
-    d["spec"] = {"name": case["spec"]["name"], "world": case["spec"]["world"], "blocks": case["spec"]["blocks"][:max(nb, 1)]}
+    d["spec"] = dict(case["spec"], blocks=case["spec"]["blocks"][:max(nb, 1)])  # keeps genesis variant / option overrides of the case
     return d
 
 
@@ -131,8 +133,8 @@ def adversarial_tables(cases):
     return {
         "adversarial_amount_classes_by_kind": amt,
         "adversarial_currencies_by_kind": cur,
-        "adversarial_kinds_not_fed": "ETH_LOCK / ETH_REDEEM / ERC20 lock+redeem and BTC (amounts live inside the embedded external transaction; "
-                                     "they need a configured chain driver - adversarial amounts and exact mint/burn are C15's check), OLVM value "
+        "adversarial_kinds_not_fed": "ERC20 lock+redeem and BTC (C15's check; ETH_LOCK / ETH_REDEEM / ETH_REPORT_FINALITY are fed by the scenario ethlock and the witness "
+                                     "eth_redeem_refund on the 'eth' genesis variant: per-tracker allowance 'mint = value locked', 'refund = amount burnt'), OLVM value "
                                      "transfers beyond the generated ones (C17), bid external app; PROPOSAL_CREATE/FUND/WITHDRAW_FUNDS (eligible "
                                      "and not eligible proposal), all four network delegation kinds, ONS create/renew/purchase/send/sell, SENDPOOL "
                                      "(bounty and delegation pool), SEND, STAKE/UNSTAKE/WITHDRAW (ordinary and self-staked) and WITHDRAW_REWARD "
@@ -174,7 +176,7 @@ def run(ctx, props, mine, known, names, what):
     own = [m for m in mon if m[2] in mine or m[2] in known]
     cov.update({
         "evaluations": rep["steps"], "distinct_nontrivial": rep["distinct_cases"],
-        "rule": "whole-application runs (real app.App through ABCI, Replica): replays of the recorded findings (all fixed: expected to HOLD) + 15 witnesses (incl. bid amounts (negative / zero / further offer / counter offer / expiry by a third party); an OLVM contract whose call clears a storage slot (SSTORE refund), reverts, carries value; stakingOptions.maturityTime lowered by a finalised configuration proposal between one validator's unstake and two same-block unstakes of another, both address orders; a reward withdrawal that matures while the delegation pool is empty, with and without a CheckTx as the last call before each block; a transaction refused in the fee step after its handler ran, followed at once by a spend from the account it had credited; several unstakes of one delegator in one block through maturity and withdrawal; a self-staking candidate with a foreign public key + junk in signature slot 0) + the 5 directed "
+        "rule": "whole-application runs (real app.App through ABCI, Replica): replays of the recorded findings (all fixed: expected to HOLD) + 16 witnesses (incl. wrapped ETH on the 'eth' genesis variant: lock -> reports -> mint, a redeem that succeeds, a redeem that fails and is refunded, crafted redeems with the redeem(uint256) selector in the gas price / nonce / value field or twice in the call data; bid amounts (negative / zero / further offer / counter offer / expiry by a third party); an OLVM contract whose call clears a storage slot (SSTORE refund), reverts, carries value; stakingOptions.maturityTime lowered by a finalised configuration proposal between one validator's unstake and two same-block unstakes of another, both address orders; a reward withdrawal that matures while the delegation pool is empty, with and without a CheckTx as the last call before each block; a transaction refused in the fee step after its handler ran, followed at once by a spend from the account it had credited; several unstakes of one delegator in one block through maturity and withdrawal; a self-staking candidate with a foreign public key + junk in signature slot 0) + the 5 directed "
                 "scenarios + adversarial-amount histories (25 value-moving kinds incl. BID_CREATE / further offer / counter offer, incl. self-staked STAKE/UNSTAKE/WITHDRAW; per kind also a pair 'refused in the fee step (gas limit 1) after a successful handler / SEND by the account it touched last of more than, and of nearly all, it owns', and signature lists with a foreign key + junk in the first / last slot at a high fee price; x amounts {-2^64,-1,0,1,base-1,base,base+1,2^63-1,2^63,2^64-2,2^64,"
                 "2^64+1,10^40} relative to the observed source record x currencies {OLT,ETH,unregistered,empty}; every address field replaced by "
                 "other accounts, signed by the rightful signers / the attacker / the named account) + seeded random histories over ~35 kinds incl. OLVM "
